@@ -118,6 +118,9 @@ def _known_dfa(ctx: Ctx, oid: str) -> A.DFA:
     return k
 
 
+_PROBES = ["true", "false", "null", "vs"] + [c for c in "!\"#$%&'()*+,-./:;<=>?@[\\]^_`{|}~ "] + ["0", "→", "⊕", "⇌", "∧", "∨", "§", "⧺", "//", "===", "---"]
+
+
 def _report_bad_values(ctx: Ctx, oid: str, bad_v: A.DFA, what: str, n_checked: int, backend: str = "dfa") -> Outcome:
     """bad_v: language of values violating the obligation. Splits into known / new."""
     al = alphabet()
@@ -127,15 +130,30 @@ def _report_bad_values(ctx: Ctx, oid: str, bad_v: A.DFA, what: str, n_checked: i
     known = _known_dfa(ctx, oid)
     new = bad_v - known
     if not new.is_empty():
-        # a few distinct shortest witnesses
+        # candidate members of the counterexample language: the shortest ones, plus the shortest member
+        # of its intersection with each probe sublanguage (reserved words, every ASCII punctuation
+        # character, digits, operators) - the verifier's language is exact, but the obligation is a
+        # sufficient condition, so members are replayed on the real emit+parse and the ones that
+        # really fail are reported first.
+        cands: list[str] = []
         cur = new
         for _ in range(3):
             w = cur.witness()
             if w is None:
                 break
             s = al.decode(w)
-            wits.append(_witness_for_value(s, what, verifier=f"counterexample language has {new.size()} DFA states; shortest member {s!r}"))
+            cands.append(s)
             cur = cur - A.concat(al, [s])
+        for probe in _PROBES:
+            part = new & A.concat(al, [A.sigma_star(al), probe, A.sigma_star(al)])
+            w = part.witness()
+            if w is not None:
+                s = al.decode(w)
+                if s not in cands:
+                    cands.append(s)
+        made = [_witness_for_value(s, what, verifier=f"counterexample language has {new.size()} DFA states; member {s!r}") for s in cands]
+        confirmed = [w for w in made if w.confirmed]
+        wits.extend(confirmed[:3] if confirmed else made[:3])
     for f in ctx.known_for(oid):
         if f.match.get("kind") != "lang":
             continue
